@@ -602,6 +602,13 @@ pub fn case(batch: &str, tier: &str, i: u64) -> CaseOut {
         }
         return out;
     }
+    if batch == "range-lifetime" {
+        *out.probes.entry("range_lifetime_cases".into()).or_insert(0) += 1;
+        if let Some(d) = range_lifetime_case(seed) {
+            out.violation = Some(("sequence_depends_on_dead_ranges".into(), d, json!({"kind":"c15_range_lifetime","seed": seed.to_string()})));
+        }
+        return out;
+    }
     if batch == "native-shared" {
         *out.probes.entry("native_shared_showdown_runs".into()).or_insert(0) += 1;
         if let Some(d) = native_shared(seed) {
@@ -683,6 +690,10 @@ pub fn eval(v: &Value) -> Option<(String, String)> {
             let q: Vec<u8> = v["scope"].as_array()?.iter().map(|x| x.as_u64().unwrap_or(0) as u8).collect();
             let big = v["big"].as_str()?;
             thread_history_case(flop, &texts, ((q[0], q[1]), (q[2], q[3])), big).map(|d| ("sequence_depends_on_thread_history".to_string(), d))
+        }
+        "c15_range_lifetime" => {
+            let seed: u64 = v["seed"].as_str()?.parse().ok()?;
+            range_lifetime_case(seed).map(|d| ("sequence_depends_on_dead_ranges".to_string(), d))
         }
         "c15_native" => {
             let seed: u64 = v["seed"].as_str()?.parse().ok()?;
@@ -850,6 +861,40 @@ fn thread_history_case(flop: [u8; 3], texts: &[String], scope: (Pos, Pos), big: 
             &big[..big.len().min(24)],
             first_diff(&c, &a)
         ));
+    }
+    None
+}
+
+/// Range lifetime: an iterator stays alive while every range object it was built from
+/// is dropped; then other ranges of the same size are built (the allocator tends to
+/// hand out the recycled address) and an evaluator over them must still give the
+/// sequence it gives in a fresh thread where nothing else ever lived.
+fn range_lifetime_case(seed: u64) -> Option<String> {
+    let mut rng = Rng::new(seed);
+    let k = rng.range(2, 6) as usize;
+    let flop = gen_flop(&mut rng);
+    let mk = |rng: &mut Rng| -> Scenario {
+        Scenario { flop, players: vec![RangeRecipe::simple(gen_combos(rng, k, false).into_iter().map(|c| (c.0, c.1, 1.0f32.to_bits())).collect())] }
+    };
+    let a = mk(&mut rng);
+    let b = mk(&mut rng);
+    let fi = rng.usize_below(NPOS - 20);
+    let scope = [(pos_from_index(fi), pos_from_index(fi + 12))];
+    let want = fresh_thread(|| drain(&b.flop, &b.build_ranges(), &scope, 100_000).0);
+    for _ in 0..8 {
+        let ra = a.build_ranges();
+        let mut live = Stepper::new(&a.flop, &ra, &scope).ok()?;
+        let _ = live.step();
+        drop(ra); // the source ranges die, the iterator lives on
+        let rb = b.build_ranges();
+        let got = drain(&b.flop, &rb, &scope, 100_000).0;
+        let _ = live.step();
+        if !same_seq(&got, &want) {
+            return Some(format!(
+                "while an iterator over {} was still alive but its source ranges had been dropped, an evaluator over {} gave another sequence than in a fresh thread: {}",
+                a.short(), b.short(), first_diff(&got, &want)
+            ));
+        }
     }
     None
 }
@@ -1088,7 +1133,8 @@ pub fn run(tier: &str) -> i32 {
     let n_heavy: u64 = if quick { 3 } else { 48 };
     let n_shared: u64 = if quick { 40 } else { 1000 };
     let n_hist: u64 = if quick { 120 } else { 3000 };
-    for (batch, n) in [("inproc", n_plain), ("fresh", n_fresh), ("thread-history", n_hist), ("native", n_native), ("native-heavy", n_heavy), ("native-shared", n_shared)] {
+    let n_life: u64 = if quick { 120 } else { 3000 };
+    for (batch, n) in [("inproc", n_plain), ("fresh", n_fresh), ("thread-history", n_hist), ("range-lifetime", n_life), ("native", n_native), ("native-heavy", n_heavy), ("native-shared", n_shared)] {
         let chunk = if batch == "native-heavy" { 1 } else { chunk };
         let chunks = run_batch("C15", batch, n, chunk, tier, false);
         for (ci, ch) in chunks.iter().enumerate() {
@@ -1230,7 +1276,7 @@ pub fn replay(v: &Value) -> Option<(String, String)> {
             }
             _ => None,
         },
-        "c15_native" | "c15_thread_history" => eval_in_child("C15", r, false).map(|(k, d)| (key_json(&k, r), d)),
+        "c15_native" | "c15_thread_history" | "c15_range_lifetime" => eval_in_child("C15", r, false).map(|(k, d)| (key_json(&k, r), d)),
         "c15_miri" => match miri_tier(verif_seed(), 64) {
             Ok((_, Some(t))) => Some((v["key"].as_str().unwrap_or("").to_string(), t.lines().rev().take(5).collect::<Vec<_>>().join(" | "))),
             _ => None,
